@@ -941,7 +941,10 @@ class Process(StateMachine, persistence.Savable, metaclass=ProcessStateMachineMe
                     self.logger.exception('Process<%s>: Exception calling cleanup method %s', self.pid, cleanup)
             self._cleanups = None
         finally:
+            # The callbacks registered by others are dropped. The process keeps its own lifecycle hooks, such that a transition
+            # that is still made (a failure while terminating, the kill of a process that was closed by hand) is a complete one
             self._event_callbacks = {}
+            self._setup_event_hooks()
             self._closed = True
 
     def _fire_event(self, evt: Callable[..., Any], *args: Any, **kwargs: Any) -> None:
